@@ -17,6 +17,8 @@ func main() {
 		cosmosEdges()
 	case "selfcheck":
 		selfCheck()
+	case "probe-empty-proof":
+		probeEmptyProof()
 	default:
 		vio.Fatal("unknown command %s", os.Args[1])
 	}
